@@ -146,8 +146,6 @@ def a_member(rng, opts):
     r = rng.random()
     if r < 0.12:
         return {'k': 'darray', 'elem': a_elem(rng, 1, opts)}
-    if r < 0.015 + 0.12 and opts.get('nested_struct'):
-        return a_struct(rng, opts, 1, 2)
     return a_elem(rng, 0, opts)
 
 
@@ -331,10 +329,6 @@ class Pres:
             self.counts[what] += 1
 
 
-def same_ft(a, b):
-    return a == b
-
-
 # ------------------------------------------------------------------ printers
 
 class Printer:
@@ -395,6 +389,8 @@ class Printer:
                 n['size'] = OD([('exp', 8), ('mant', 24)]) if ft['size'] == 32 else OD([('exp', 11), ('mant', 53)])
                 if ft['align'] is not None:
                     n['align'] = ft['align']
+                if self.srng.random() < 0.15:
+                    n['byte-order'] = self.bo_sp(self.cfg['byte_order'])     # same as the trace: no meaning change
             else:
                 n['class'] = 'real'
                 n['size'] = ft['size']
